@@ -273,7 +273,7 @@ CHECKS = {
         ],
     },
     "C10": {
-        "level_text": "Fault enumeration over the real muxProvider/multiMuxManager/ManagedMuxSession with real yamux over net.Pipe in virtual time: the scripted connection provider lets the harness choose the outcome of every attempt (6 kinds) and the position of closes and of cancellation (also with an attempt in flight); slot-accounting invariants after every step, bounded healing, clean-shutdown (every handed-out connection closed by the pool, no goroutine left).",
+        "level_text": "Fault enumeration over the real muxProvider/multiMuxManager/ManagedMuxSession with real yamux over net.Pipe in virtual time: the scripted connection provider lets the harness choose the outcome of every attempt (11 kinds, incl. dial errors that match context.DeadlineExceeded / context.Canceled while the pool lives) and the position of closes and of cancellation (also with an attempt in flight); slot-accounting invariants after every step, bounded healing, clean-shutdown (every handed-out connection closed by the pool, no goroutine left).",
         "technique": "stateful property-based testing with rapid over fault sequences in virtual time (testing/synctest); resource-accounting invariants",
         "level": "fault_enumeration",
         "assumptions": [
